@@ -128,6 +128,7 @@ func (s *scen) addOne(r *rt) {
 	case 1:
 		r.redirect = true
 	}
+	b.notePattern(r.t.pattern(r.i))
 	route, err := s.f.Handle(r.method, r.t.pattern(r.i), s.handler, fox.WithIgnoreTrailingSlash(r.ignore), fox.WithRedirectTrailingSlash(r.redirect))
 	hx.Fatal(err)
 	r.route = route
